@@ -9,7 +9,7 @@ export GOFLAGS=-mod=mod GOPROXY=off GOSUMDB=off GOTOOLCHAIN=local
 seed="$1"; id="$2"; dest="$3"; run="$4"; tags="$5"; needs="$6"; shift 6
 wt="/tmp/confirm-$id-$$"
 git -C /repo worktree add -q --detach "$wt" HEAD || exit 3
-cleanup() { git -C /repo worktree remove --force "$wt" >/dev/null 2>&1; rm -rf "$wt"; }
+cleanup() { git -C /repo worktree remove --force "$wt" >/dev/null 2>&1; rm -rf "$wt" "/verif/bin/alt-$(echo "$wt" | cksum | cut -d' ' -f1)"; }
 trap cleanup EXIT
 mkdir -p "$wt/tmp"
 demo=$(ls "$seed"/demo_test.go 2>/dev/null || true)
